@@ -18,6 +18,7 @@ fn c01_q_boxed_blocking_requests_in_rank_order() {
 	u.set_any_others();
 	// listed against the address order
 	let c = BoxedLockCollection::try_new([&u[2], &u[0], &u[1]]).unwrap();
+	w().order_desc = !super::c07_dup::code_sorts_ascending();
 	w().order_check = true;
 	let write: bool = kani::any();
 	let key = ThreadKey::get().unwrap();
@@ -43,6 +44,7 @@ fn c01_q_ref_scoped_blocking_requests_in_rank_order() {
 	u.set_any_others();
 	let members = [&u[1], &u[2], &u[0]];
 	let c = RefLockCollection::try_new(&members).unwrap();
+	w().order_desc = !super::c07_dup::code_sorts_ascending();
 	w().order_check = true;
 	let mut key = ThreadKey::get().unwrap();
 	c.scoped_lock(&mut key, |_| ());
@@ -64,6 +66,7 @@ fn c01_q_nested_sorting_members_requests_in_rank_order() {
 	b2.child().set_any_others();
 	let data = (b2, b1);
 	let c = RefLockCollection::new(&data);
+	w().order_desc = !super::c07_dup::code_sorts_ascending();
 	w().order_check = true;
 	let key = ThreadKey::get().unwrap();
 	let g = c.lock(key);
